@@ -13,6 +13,7 @@ for d in sorted(glob.glob('/verif/seeded/C*')):
         m = re.match(r'== check (\S+) quick', line)
         if m: cur = m.group(1); checks[cur] = 'no result'
         elif cur and line.startswith('VIOLATION'): checks[cur] = 'caught: ' + line.strip()
+        elif cur and line.startswith('violation detail') and not checks[cur].startswith('caught'): checks[cur] = 'caught: ' + line.strip()[:200]
         elif cur and line.startswith('OK') and not checks[cur].startswith('caught'): checks[cur] = 'MISSED: ' + line.strip()
         elif cur and line.startswith('INCONCLUSIVE') and not checks[cur].startswith('caught'): checks[cur] = 'inconclusive: ' + line.strip()
     def grab(pat):
